@@ -42,6 +42,7 @@ func runReqScenario(c *Ctx, cfg reqScenarioCfg) {
 	callKind := map[int]string{}
 	recvFor := map[int]uint32{}
 	txTimes := map[uint32][]time.Time{}
+	armLB := map[uint32]time.Time{} // earliest moment the latest transmission of a request can have been scheduled (its retry timer armed)
 	lastTxPipe := map[uint32]int{}
 	lostAt := map[uint32]time.Time{} // when the pipe carrying the latest copy was lost
 	maybeCancelled := map[uint32]bool{}
@@ -122,12 +123,25 @@ func runReqScenario(c *Ctx, cfg reqScenarioCfg) {
 				if why, fin := done[id]; fin && !fromRelease {
 					c.Violate(fmt.Sprintf("REQ: request %#x was transmitted again after it had been %s", id, why), e.Replay())
 				}
+				// "never before the retry time": the retry timer is armed when the scheduler hands the request to a pipe's
+				// sender goroutine; what is observed is when that goroutine calls the pipe, any time later.  A transmission
+				// caused by an operation (Send, a new or lost connection) was scheduled no earlier than that operation began;
+				// one caused by the retry timer no earlier than one retry time after the previous one was scheduled.  The gap
+				// between two *observed* calls proves nothing (the earlier goroutine may have been late) — the chain of
+				// lower bounds does.
 				if n := len(txTimes[id]); n > 0 && cfg.retryMs > 0 && !fromRelease {
-					// a retransmission: either its previous pipe was lost, or the retry interval has elapsed
 					_, lost := lostAt[id]
-					if !lost && now.Sub(txTimes[id][n-1]) < retry-2*time.Millisecond {
-						c.Violate(fmt.Sprintf("REQ: request %#x retransmitted %v after its previous transmission although the retry time is %v and its connection is still up", id, now.Sub(txTimes[id][n-1]), retry), e.Replay())
+					if !lost {
+						lb := armLB[id].Add(retry)
+						if now.Before(lb.Add(-2 * time.Millisecond)) {
+							c.Violate(fmt.Sprintf("REQ: request %#x retransmitted %v before its retry time (%v) can have elapsed since the previous transmission was scheduled, although its connection is still up", id, lb.Sub(now), retry), e.Replay())
+						}
+						armLB[id] = lb
+					} else {
+						armLB[id] = e.prevObsEnd
 					}
+				} else {
+					armLB[id] = e.prevObsEnd
 				}
 				if cfg.noRetry && len(txTimes[id]) > 0 {
 					c.Violate(fmt.Sprintf("REQ: request %#x was re-sent although retries are disabled", id), e.Replay())
@@ -519,6 +533,32 @@ func runReqRecvParkedBeforeScheduled(c *Ctx, bestEffort bool) {
 	e.Finish()
 }
 
+// directed (C04): the retry time changed while a request is outstanding.  The new value governs transmissions made from
+// now on; it never causes one by itself — in particular switching retries off (0) does not retransmit at once.
+func runReqRetryTimeChangedWhileOutstanding(c *Ctx, newMs int) {
+	e := NewExec(c, "m.req", req.NewProtocol(), "req")
+	e.timed, e.canonIDs = true, true
+	e.AddPipe(901)
+	e.SetOpt(0, mangos.OptionRetryTime, "70", 70*time.Millisecond)
+	e.Send(0, nil, []byte{0x71, 0, 1})
+	if !e.idKnown {
+		e.Finish()
+		return
+	}
+	e.SetOpt(0, mangos.OptionRetryTime, fmt.Sprint(newMs), time.Duration(newMs)*time.Millisecond)
+	if strings.Contains(lastObs(e), "tx:") {
+		c.Violate(fmt.Sprintf("REQ: setting RETRY-TIME to %d ms while a request was outstanding (previous retry time 70 ms, transmitted a moment ago, connection up) retransmitted the request at once: %s", newMs, lastObs(e)), e.Replay())
+	}
+	e.Sleep(30)
+	if strings.Contains(lastObs(e), "tx:") {
+		c.Violate(fmt.Sprintf("REQ: after RETRY-TIME was set to %d ms while a request was outstanding, the request was retransmitted within 30 ms although it had been transmitted less than 35 ms before, its connection is up and neither the old (70 ms) nor the new retry time had elapsed: %s", newMs, lastObs(e)), e.Replay())
+	}
+	e.Sleep(120)
+	e.InjectCanon(901, append(be32(0x80000001), 'o', 'k'))
+	e.Recv(0)
+	e.Finish()
+}
+
 func runC03(c *Ctx) {
 	runReqRecvParkedBeforeScheduled(c, true)
 	runReqRecvParkedBeforeScheduled(c, false)
@@ -551,6 +591,8 @@ func runC03(c *Ctx) {
 }
 
 func runC04(c *Ctx) {
+	runReqRetryTimeChangedWhileOutstanding(c, 0)
+	runReqRetryTimeChangedWhileOutstanding(c, 200)
 	runReqRetransmitAfterFailedWrite(c)
 	c.Rep.Rule = "fault scripts on a real REQ protocol instance with a 70 ms retry time (and with retries disabled): connection loss at every lifecycle point (queued, in flight on a slow pipe, awaiting reply, answered, cancelled), new connections, silent peers, send failures, real sleeps across the retry interval; " +
 		"every (re)transmission is recorded with pipe, bytes and monotonic time and checked against the Lean machine (timers may fire once due, must have fired once overdue) and against the oracle: byte-identical, one pipe per transmission, never early, never after completion; class = (operation, shape of outcome)"
